@@ -119,6 +119,11 @@ class CGen:
             L.append(f"{self.num()} FOR I={r.choice(['1', 'A', '2'])} TO {r.choice(['0', '1', 'B'])}:PRINT \"L\";I:NEXT I")
         elif k == 8 and later:
             L.append(f"{self.num()} IF {r.choice('ABCN')}<3 THEN {r.choice('ABCN')}=3:GOTO {r.choice(later)}")
+        elif k == 9 and r.randrange(3) == 0:
+            # a subroutine that starts on the very next line (falls into it once more after the RETURN)
+            n1 = self.num()
+            L.append(f"{n1} {self.stmts(1)}:GOSUB {self.n}")
+            L.append(f"{self.num()} PRINT \"NX\";K:K=K+1:IF K<{r.choice([2, 3])} THEN RETURN")
         elif k == 9:
             sub = 900 + 10 * len(self.subs)
             self.subs.append(f"{sub} PRINT \"SUB{len(self.subs)}\";{r.choice('ABCN')}:{r.choice(['RETURN', 'IF A>0 THEN RETURN ELSE RETURN', self.simple() + ':RETURN'])}")
@@ -174,6 +179,10 @@ PROBES = [
     "10 IF B>0 THEN ON A GOTO 100,200:PRINT \"NEITHER\"\n20 PRINT \"NEXT\":END\n100 PRINT \"ONE\":END\n200 PRINT \"TWO\"",
     "10 ON A GOSUB 100,200:PRINT \"BACK\":ON B GOTO 300,400:PRINT \"FALL\"\n20 END\n100 PRINT \"S1\":RETURN\n200 PRINT \"S2\":RETURN\n300 PRINT \"T3\":END\n400 PRINT \"T4\"",
     "10 GOSUB 100:PRINT \"A\":GOSUB 100:PRINT \"B\":END\n100 PRINT \"IN\":RETURN:PRINT \"DEAD\"",
+    "10 PRINT \"START\":GOSUB 100:PRINT \"DONE\":END\n100 PRINT \"TWICE\":GOSUB 110\n110 PRINT \"BODY\":RETURN",
+    "10 PRINT \"A\":GOTO 20\n20 PRINT \"B\":GOSUB 30\n30 PRINT \"C\":IF K=0 THEN K=1:RETURN\n40 PRINT \"D\"",
+    "10 ON A GOSUB 20,20\n20 PRINT \"S\":K=K+1:IF K<3 THEN RETURN\n30 PRINT \"E\"",
+    "10 IF A=1 THEN GOSUB 20\n20 PRINT \"X\":K=K+1:IF K=1 THEN RETURN\n30 END",
     "10 A=A+1:IF A<4 THEN 10\n20 PRINT A",
     "10 PRINT \"S\":STOP\n20 PRINT \"NEVER\"",
     "10 FOR I=3 TO 1 STEP -1:PRINT I:NEXT I\n20 PRINT \"D\"",
